@@ -4,7 +4,7 @@ from props import heapcheck, heapspec, segspec
 
 GEN_MODULES = ["Vm"]
 ASSUMPTIONS = ["theorems: Linked/Clean invariants of Model/Seg.lean + Model/Action.lean for every action program and its garbage collection; "
-               "the bidi pass, mirroring, finiteness of positions, glyph ids and the index permutation (until Proofs/IndexPerm) are not covered by a theorem - they are decided only by the end-to-end predicate on the implementation's output",
+               "the bidi pass, mirroring, finiteness of positions and glyph ids are not covered by a theorem - they are decided only by the end-to-end predicate on the implementation's output",
                "the loader's acceptance tests are not modelled: the component harness only runs programs the real loader accepted",
                "scalar opcodes inside action code use the regenerated Gen.Vm bodies"]
 TRUSTED = ["hand-written model GrVerif/Model/{Seg,Action}.lean (tied by correspondence on action programs)", "tools/fontsynth.py (font synthesiser) and tools/heapgen.py"]
